@@ -11,7 +11,7 @@ from ..model import Model
 from ..normal import ext_name, strip_cast
 from ..report import Result
 from ..terms import NONE, T, const, contains, mk, show, uncopy
-from .common import step_types, txt
+from .common import step_types, txt, wrapper_env_attr
 
 EXPLANATION = (
     "Decided on the value-flow graph of jumanji/wrappers.py (the wrapped environment is left abstract, so the result "
@@ -53,8 +53,26 @@ def autoreset_obligations(res: Result, rule: str, vfg: VFG, tree: Tree, clsname:
     if ci is None:
         raise AnalysisError(f"anchor {W}{clsname} not found")
     self_t = mk("self", ci.qual)
-    E = mk("attr", self_t, "_env")
-    M = mk("attr", self_t, "_maybe_add_obs_to_extras")
+    E = mk("attr", self_t, wrapper_env_attr(tree))
+    init = tree.find_method(ci, "__init__")
+    addf = tree.functions.get(W + "add_obs_to_extras")
+    if init is None or addf is None:
+        raise AnalysisError("anchor __init__/add_obs_to_extras not found")
+    # the attribute holding the maybe-add function, by role: the one __init__ fills differently for the two flag values
+    per_flag = {}
+    for flag in (True, False):
+        v2 = VFG(tree, Model(tree))
+        v2.apply_func(init, self_t, ci, [mk("param", init.qual, "env"), const(flag)], {}, None, None)
+        per_flag[flag] = {}
+        for e in v2.events:
+            if e.kind == "store_attr" and e.target is self_t:
+                per_flag[flag].setdefault(e.name, []).append(e)
+    m_names = [n for n in per_flag[True] if n in per_flag[False] and per_flag[True][n][-1].value is not per_flag[False][n][-1].value
+               and not (per_flag[True][n][-1].value.kind == "const" and per_flag[False][n][-1].value.kind == "const")]
+    if len(m_names) != 1:
+        raise AnalysisError(f"{clsname}.__init__: expected exactly one attribute that depends on next_obs_in_extras, got {m_names}")
+    M_NAME = m_names[0]
+    M = mk("attr", self_t, M_NAME)
     step = tree.find_method(ci, "step")
     reset = tree.find_method(ci, "reset")
     if step is None or reset is None or step.cls is not ci:
@@ -149,18 +167,11 @@ def autoreset_obligations(res: Result, rule: str, vfg: VFG, tree: Tree, clsname:
     exp = mk("tuple", (e_s, mk("call", M, (e_t,), ())))
     res.add(rule + ".R4", reset.loc(), fn + ".reset", "reset returns (inner state, maybe_add(inner timestep))", rr is exp, f"{txt(rr, 6, 300)}")
     # ---------------- __init__ wiring of maybe_add
-    init = tree.find_method(ci, "__init__")
-    addf = tree.functions.get(W + "add_obs_to_extras")
-    if init is None or addf is None:
-        raise AnalysisError("anchor __init__/add_obs_to_extras not found")
     for flag in (True, False):
-        n0 = len(vfg.events)
         v2 = VFG(tree, Model(tree))
-        envp = mk("param", init.qual, "env")
-        v2.apply_func(init, self_t, ci, [envp, const(flag)], {}, None, None)
-        stores = [e for e in v2.events if e.kind == "store_attr" and e.target is self_t and e.name == "_maybe_add_obs_to_extras"]
+        stores = per_flag[flag][M_NAME]
         if len(stores) != 1:
-            raise AnalysisError(f"{clsname}.__init__: expected one assignment of _maybe_add_obs_to_extras for next_obs_in_extras={flag}, got {len(stores)}")
+            raise AnalysisError(f"{clsname}.__init__: expected one assignment of {M_NAME} for next_obs_in_extras={flag}, got {len(stores)}")
         f = stores[0].value
         ts = mk("param", "probe", "timestep")
         out = uncopy(v2.apply(f, [ts], {}, None, None))
